@@ -120,6 +120,12 @@ fn run(args: &[String]) -> i32 {
                 }
             }
         }
+        "handle-server" => {
+            // second OS process of C10's two-process configuration
+            let ndb = args.get(2).cloned().unwrap_or_else(|| usage());
+            let wal = args.get(3).cloned().unwrap_or_else(|| usage());
+            checks::handles::handle_server(std::path::Path::new(&ndb), std::path::Path::new(&wal))
+        }
         "replay-inner" => {
             let p = args.get(2).cloned().unwrap_or_else(|| usage());
             framework::run_replay(&p)
